@@ -87,6 +87,9 @@ type Eval struct {
 }
 
 func (ex *Exec) newEval(st, old *State) *Eval {
+	if st != nil && st.old != nil && old == ex.topExec().entry {
+		old = st.old // concurrent mode: old() is the state at the last acquisition on the paths leading to st
+	}
 	return &Eval{ex: ex, st: st, old: old, vars: map[string]TV{}, params: map[string]TV{}, ts: ex.ts, fn: ex.fn, pkg: pkgOf(ex.fn)}
 }
 
@@ -129,6 +132,40 @@ func (ev *Eval) evalBool(e Expr) string {
 	}
 	tv := ev.eval(e)
 	return tv.T
+}
+
+// instNamed instantiates a generic named type with the like-named (else positional) type parameters in scope.
+func (ev *Eval) instNamed(n *types.Named) types.Type {
+	if n.TypeParams() == nil || n.TypeParams().Len() == 0 {
+		return n
+	}
+	var targs []types.Type
+	for i := 0; i < n.TypeParams().Len(); i++ {
+		want := n.TypeParams().At(i).Obj().Name()
+		var got types.Type
+		for f := ev.fn; f != nil && got == nil; f = f.Parent() {
+			if tps := f.TypeParams(); tps != nil {
+				for j := 0; j < tps.Len(); j++ {
+					if tps.At(j).Obj().Name() == want {
+						got = ev.ts.apply(tps.At(j))
+					}
+				}
+			}
+		}
+		if got == nil && ev.fn != nil {
+			if tps := ev.fn.TypeParams(); tps != nil && i < tps.Len() {
+				got = ev.ts.apply(tps.At(i))
+			}
+		}
+		if got == nil {
+			got = n.TypeParams().At(i)
+		}
+		targs = append(targs, got)
+	}
+	if inst, err := types.Instantiate(nil, n, targs, false); err == nil {
+		return inst
+	}
+	return n
 }
 
 func (ev *Eval) resolveType(te TypeExpr) VT {
@@ -387,6 +424,9 @@ func (ev *Eval) ident(name string) TV {
 		return TV{Zero: true, T: "0", Ty: vtInt}
 	case "now":
 		return TV{T: ev.ex.get(ev.state(), "CLK", "Int"), Ty: vtInt}
+	case "now0":
+		// the ghost clock when the function was entered (in concurrent mode old(now) is the clock at the last acquisition)
+		return TV{T: ev.ex.vc.comp("CLK", "Int"), Ty: vtInt}
 	case "docount":
 		return TV{T: ev.ex.get(ev.state(), "DOCNT", "Int"), Ty: vtInt}
 	case "dokey":
@@ -855,6 +895,10 @@ func (ev *Eval) call(e ECall) TV {
 		r := x.T
 		if _, ok := isSliceVT(x.Ty); ok {
 			r = "(sarr " + x.T + ")"
+		}
+		if ev.ex.vc.conc && ev.old != nil && ev.old.rebound {
+			// concurrent mode re-binds old() at every acquisition; "fresh" keeps meaning: allocated during this call
+			return TV{T: sNot(sSel("c0_alloc", "(rootOf "+r+")")), Ty: vtBool}
 		}
 		return TV{T: sNot(sSel(alloc(ev.old), "(rootOf "+r+")")), Ty: vtBool}
 	case "allocated":
